@@ -9,7 +9,10 @@
 #include <Bpp/App/ApplicationTools.h>
 #include <Bpp/Numeric/ParameterList.h>
 #include <Bpp/Numeric/Parameter.h>
+#include <Bpp/Numeric/DataTable.h>
+#include <sstream>
 #include <map>
+#include <memory>
 #include <algorithm>
 #include <unistd.h>
 #include <sys/wait.h>
@@ -132,6 +135,36 @@ static std::string op(const Toks& t) {
       if (kk == tokens.size()) {
         try { nst.nextToken(); out += "!"; } catch (Exception&) { out += "x"; }
       } else out += "-";
+      return out;
+    }
+    if (o == "tbl.rt") {         // tbl.rt <sep> <align> <nCol> <hasCol> <hasRow> <nRows> items...
+      std::string sep = hexToStr(t[1]); bool align = t[2] == "1";
+      size_t nCol = toU(t[3]); bool hasCol = t[4] == "1", hasRow = t[5] == "1"; size_t nRows = toU(t[6]);
+      size_t p = 7;
+      std::unique_ptr<DataTable> dt;
+      try {
+        dt.reset(new DataTable(nCol));
+        if (hasCol) { std::vector<std::string> cn; for (size_t j = 0; j < nCol; ++j) cn.push_back(hexToStr(t[p++])); if (!cn.empty()) dt->setColumnNames(cn); }
+        for (size_t i = 0; i < nRows; ++i) {
+          std::string name; if (hasRow) name = hexToStr(t[p++]);
+          std::vector<std::string> row; for (size_t j = 0; j < nCol; ++j) row.push_back(hexToStr(t[p++]));
+          if (hasRow) dt->addRow(name, row); else dt->addRow(row);
+        }
+      } catch (Exception&) { return "build:exc:bpp"; }
+      std::ostringstream os;
+      try { DataTable::write(*dt, os, sep, align); } catch (Exception&) { return "write:exc:bpp"; }
+      std::string text = os.str();
+      std::string out = strToHex(text) + " / ";
+      std::istringstream is(text);
+      int rn = (dt->hasRowNames() && !dt->hasColumnNames()) ? 0 : -1;
+      std::unique_ptr<DataTable> back;
+      try { back = DataTable::read(is, sep, dt->hasColumnNames(), rn); } catch (Exception&) { return out + "exc:bpp"; }
+      out += std::to_string(back->getNumberOfColumns()) + " " + std::to_string(back->getNumberOfRows()) + " ";
+      if (back->hasColumnNames()) out += showStrs(back->getColumnNames()); else out += "0";
+      out += " ";
+      if (back->hasRowNames()) out += showStrs(back->getRowNames()); else out += "0";
+      for (size_t i = 0; i < back->getNumberOfRows(); ++i)
+        for (size_t j = 0; j < back->getNumberOfColumns(); ++j) out += " " + strToHex((*back)(i, j));
       return out;
     }
     if (o == "num") {            // num <s> <dec> <sci>
